@@ -373,7 +373,7 @@ type memLog struct {
 
 func (m *memLog) Write(p []byte) (int, error) {
 	m.mu.Lock()
-	if len(m.buf) > 20000 {
+	if len(m.buf) > 20000 && os.Getenv("OXSIM_DUMPLOG") == "" {
 		m.buf = m.buf[10000:]
 	}
 	m.buf = append(m.buf, strings.TrimRight(string(p), "\n"))
